@@ -106,16 +106,40 @@ def mk_policy(desc):
     return kind
 
 
+_steps = {}
+
+
+def steps():
+    """one step counter per worker: a decoder that never returns must become a verdict, not a stuck worker"""
+    if 'sc' not in _steps:
+        from vmon.probes import StepCounter
+        _steps['sc'] = StepCounter().install()
+    return _steps['sc']
+
+
+def budget(enc):
+    return 40000 + 400 * len(enc)
+
+
 def decode_direct(enc, buf, pdesc):
     from ombott.request_pkg import body_mixin
     from ombott.request_pkg.errors import BodyParsingError, RequestError
+    from vmon.probes import BudgetExceeded
     st = RecStream(enc, mk_policy(pdesc))
+    sc = steps()
+    sc.arm(budget(enc))
     try:
         body = body_mixin._body_read(st.read, buf, chunked=True)
     except RequestError as e:
+        sc.disarm()
         return ('reject', type(e).__name__, st)
+    except BudgetExceeded as e:
+        sc.disarm()
+        return ('fault', f'step budget exceeded (no progress): {e}', st)
     except Exception as e:   # foreign exception
+        sc.disarm()
         return ('fault', f'{type(e).__name__}: {e}', st)
+    sc.disarm()
     body.seek(0)
     return ('accept', body.read(), st)
 
@@ -134,7 +158,10 @@ def decode_wsgi(enc, buf, pdesc):
             return app.request.body.read()
     st = RecStream(enc, mk_policy(pdesc))
     env = make_environ('POST', '/c', stream=st, chunked=True, content_length=None)
+    sc = steps()
+    sc.arm(budget(enc) + 20000)
     r = call_app(app, env)
+    sc.disarm()
     if r.escaped is not None:
         return ('fault', f'escaped {type(r.escaped).__name__}: {r.escaped}', st)
     if r.code == 200:
